@@ -33,6 +33,17 @@ def build(case, shared=False):
     first_sub = edges[0][0]
     primer = [(TermId.from_curie('AA:0'), TermId.from_curie('ZZ:9')), (TermId.from_curie('AA:1'), TermId.from_curie('ZZ:9')), (first_sub, TermId.from_curie('ZZ:9'))]
     fac.create_graph(primer)
+    # ... and a look-alike of this graph: same number of nodes, same first and last node, but the second-largest node is
+    # replaced by one that sorts right after the smallest - every node in between sits at another index
+    nodes = sorted({t for e in edges for t in e})
+    if len(nodes) >= 4:
+        gone = nodes[-2]
+        new = TermId.from_curie(nodes[0].prefix + ':' + nodes[0].id + '!')
+        if new not in nodes:
+            try:
+                fac.create_graph([(new if s == gone else s, new if o == gone else o) for s, o in edges])
+            except Exception:
+                pass
     return fac.create_graph(edges)
 
 
